@@ -952,6 +952,12 @@ func (x *Exec) specCall(c *ast.CallExpr, env *SpecEnv) TV {
 		n := *env
 		n.st = env.old
 		return x.specValue(c.Args[0], &n)
+	case "incallback":
+		// true while the statements of a function literal run as the callback of a modelled external (filepath.WalkDir)
+		if x.cbDepth > 0 {
+			return TV{V: tTrue, T: boolT}
+		}
+		return TV{V: tFalse, T: boolT}
 	case "atLoop":
 		if env.loopEntry == nil {
 			panic("spec: atLoop() outside a loop invariant: " + exprStr(c))
